@@ -313,13 +313,15 @@ def roundtrip(tier='quick', seed=0):
     n = 1200 if tier == 'thorough' else 200
     for e in corpus.expressions(seed, n, 3):
         check(e, ep, 'expression')
-    for t in ['x = NAN', 'x < INF', 'x > PI * E']:
+    for t in ['x = NAN', 'x < INF', 'x > PI * E', '(not a) = b', 'not a = b', '(not p) in {True, q}', 'not (not p)', '(-x) ** 2 > 0', '-(x ** 2) < 0',
+              '(x > 1) = (y > 2)', 'not (forall i in xs: @i > 0)', '(forall i in xs: @i > 0) and p', '-x.y + 1 > 0', '(p implies q) implies r', 'p implies (q implies r)']:
         check(ep.parse(t), ep, 'expression')
-    for text in corpus.PROPERTY_TEXTS:
+    for text in list(corpus.PROPERTY_TEXTS) + ['globally: no a as A', 'after p as P: no b {x > @P.x}', 'globally: some /ns/topic as T {x > 0} within 0 s',
+                 'after a as A until b {y = @A.y}: c as C causes d {z > @C.z and z < @A.z} within 20 ms']:
         P = pp.parse(text)
         check(P, pp, 'property')
         check(P.pattern.behaviour.predicate, prp, 'predicate') if hasattr(P.pattern.behaviour, 'predicate') else None
-    for tb in ['0.07233 s', '72.33 ms', '1 ms', '999 ms', '1000 ms', '0.001 s', '12345.678 s', '1e3 s', '3 s']:
+    for tb in ['0 s', '0 ms', '0.0 s', '0.07233 s', '72.33 ms', '1 ms', '999 ms', '1000 ms', '0.001 s', '12345.678 s', '1e3 s', '3 s']:
         try:
             P = pp.parse(f'globally: a causes b within {tb}')
         except Exception:
@@ -404,6 +406,33 @@ def fuzz(tier='quick', seed=0):
                 if len(violations) < 6:
                     violations.append({'witness': f'{name}:{text[:80]!r}', 'what': f'{name} parser leaks {type(x).__name__} on {text[:80]!r}: {str(x)[:100]}'})
             first[(name, text)] = r
+    # statelessness against a FRESH parser: annotated / plain valid texts right after failing inputs on the long-lived parser
+    from hpl.parser import property_parser as _pp, specification_parser as _sp
+    seqs = [('# id: p0\n# title: 42\nglobally: no a', '# id: p1\nglobally: no a'),
+            ('# id: p0\n# id: p0\nglobally: no a', '# id: p0\nglobally: no a'),
+            ('# title: "t"\n# description: "d"\nglobally: no', '# title: "t2"\n# description: "d2"\nglobally: some b'),
+            ('globally: no a {x +', 'globally: no a {x + 1 > 0}'), ('after a as A: no', 'after a as A: no b {x = @A.x}')]
+    for name, mk in (('property', _pp), ('specification', _sp)):
+        long_lived = parsers[name]
+        for bad_text, good_text in seqs:
+            cases += 1
+            try:
+                long_lived.parse(bad_text)
+            except Exception:
+                pass
+            try:
+                got = ('ok', str(long_lived.parse(good_text)), )
+                gm = long_lived.parse(good_text)
+                got = ('ok', str(gm), str(getattr(gm, 'metadata', None) or [p.metadata for p in getattr(gm, 'properties', [])]))
+            except Exception as x:
+                got = ('err', type(x).__name__)
+            try:
+                fm = mk().parse(good_text)
+                exp = ('ok', str(fm), str(getattr(fm, 'metadata', None) or [p.metadata for p in getattr(fm, 'properties', [])]))
+            except Exception as x:
+                exp = ('err', type(x).__name__)
+            if got != exp and len(violations) < 6:
+                violations.append({'witness': f'state:{name}:{good_text!r}', 'what': f'{name} parser gives {got} for {good_text!r} after the failing input {bad_text!r}; a fresh parser gives {exp}'[:400]})
     # statelessness: replay a shuffled subset on the same parser objects
     sample = rnd.sample(inputs, min(len(inputs), 400))
     rnd.shuffle(sample)
@@ -484,7 +513,8 @@ def files(tier='quick', seed=0):
         except Exception as x:
             if type(x) is not bcls and len(violations) < 6:
                 violations.append({'witness': btext, 'what': f'file with invalid member `{btext}` raises {type(x).__name__}, the member alone raises {bcls.__name__}'})
-    for doc, why in (('', 'empty file'), ('   \n', 'blank file'), ('# id: a\n# id: b\nglobally: no a', 'duplicate key'),
+    for doc, why in (('# id: a\n# id: a\nglobally: no a', 'duplicate key with the same value'), ('globally: no a\n# title: "t"\n# title: "t"\nglobally: no b', 'duplicate key in the second property'),
+                     ('', 'empty file'), ('   \n', 'blank file'), ('# id: a\n# id: b\nglobally: no a', 'duplicate key'),
                      ('# name: a\nglobally: no a', 'unknown key'), ('# id: a\n', 'annotation without property')):
         cases += 1
         try:
@@ -539,7 +569,8 @@ def cli(tier='quick', seed=0):
     pp, sp = property_parser(), specification_parser()
     texts = list(corpus.PROPERTY_TEXTS) + ['globally: no a {x < INF}', 'globally: some a {x != NAN}', 'globally: a causes b',
                                            '# id: p1\n# title: "t"\nglobally: no a within 5 ms']
-    bad = ['globally: no', 'globally no a', 'after: no a', 'globally: no a {x + }', 'globally: no a {x + 1}', 'globally: no a {y = @Z.x}', '']
+    multi = ['globally: no a globally: some b', 'globally: no a\nglobally: some b']
+    bad = multi + ['globally: no', 'globally no a', 'after: no a', 'globally: no a {x + }', 'globally: no a {x + 1}', 'globally: no a {y = @Z.x}', '']
     cases = 0
     violations = []
 
@@ -560,6 +591,8 @@ def cli(tier='quick', seed=0):
                 f.write(text)
             for as_prop in (True, False):
                 for fmt in (None, 'json'):
+                    if text in multi and not as_prop:
+                        continue          # a sequence of properties is a valid FILE, only invalid for -p
                     argv = (['-p'] if as_prop else []) + (['-o', fmt] if fmt else []) + [text if as_prop else path]
                     cases += 1
                     code, out, err = run(argv)
